@@ -291,6 +291,10 @@ func (c *Ctx) zeroInitStruct(st *State, ref Term, t types.Type, depth int) {
 		fi := c.fieldByIndex(owner, i)
 		if isRepoStruct(fi.GoT) {
 			sub := c.loadField(st, ref, fi)
+			// the embedded object is part of the new allocation
+			al := c.aliveCur(st)
+			st.assume(mk(SBool, "(not (select %s %s))", al.S, sub.S))
+			st.heap[aliveKey] = Term{S: fmt.Sprintf("(store %s %s true)", al.S, sub.S), Sort: al.Sort}
 			c.zeroInitStruct(st, sub, fi.GoT, depth+1)
 			continue
 		}
@@ -421,9 +425,6 @@ func (c *Ctx) step(st *State, fr *Frame, in ssa.Instruction) {
 	case *ssa.Alloc:
 		et := deref(x.Type())
 		var und types.Type = et.Underlying()
-		if isOpaqueStruct(et) {
-			und = types.Typ[types.Int] // opaque scalar cell
-		}
 		switch u := und.(type) {
 		case *types.Struct:
 			_ = u
